@@ -586,6 +586,66 @@ def e2f(fb, rep):
             rep.violation(R, "operand-count|%s" % opname, "`%s` no longer compiles two operands" % opname, prim.where())
 
 
+def e2g(fb, rep):
+    """memory-limit provenance: the limit a thread's heap is created with is its parent's limit"""
+    R = "E2g"
+    rep.rule(R, "memory-limit provenance: child heaps inherit the parent's limit; writers of Gc.memory_limit")
+    GC = "gluon_vm::gc::Gc"
+    gc = fb.adts.get(GC)
+    new = fb.body("gluon_vm::gc::Gc::new")
+    child = fb.body("gluon_vm::gc::Gc::new_child_gc")
+    if gc is None or new is None or child is None:
+        rep.anchor_lost(R, "Gc / Gc::new / Gc::new_child_gc")
+        return
+    names = [f["name"] for f in gc["variants"][0]["fields"]]
+    li, gi = names.index("memory_limit"), names.index("generation")
+    # constructors of Gc: only Gc::new (plus derived deserialisers), which stores its limit parameter
+    for b in fb.bodies.values():
+        if b.crate.name != "gluon_vm":
+            continue
+        for bb, j, place, rv, line in b.assigns():
+            if rv[0] == "agg" and rv[1][0] == "adt" and rv[1][1] == GC:
+                if b.id == new.id:
+                    if ("arg", 2) in flow.sources(b, rv[2][li]) and ("arg", 1) in flow.sources(b, rv[2][gi]):
+                        rep.ok(R, "Gc::new stores its memory_limit and generation parameters")
+                    else:
+                        rep.violation(R, "gc-new-ignores-limit", "Gc::new no longer stores its memory_limit / generation parameters", b.where())
+                elif "DeserializeState" in b.id and "for gluon_vm::gc::Gc>::deserialize_state" in b.id:
+                    rep.exception(R, "derive(DeserializeState) for Gc", "the limit is read back from a serialised heap (C12 covers that no field is skipped)")
+                else:
+                    rep.violation(R, "gc-built-elsewhere|%s" % b.id, "%s builds a Gc without going through Gc::new" % b.id, "%s:%s" % (b.file, line))
+        for bb, j, rv, line, kind in flow.field_writes(b, GC, "memory_limit"):
+            if kind == "assign" and b.id.endswith("Gc::set_memory_limit"):
+                rep.ok(R, "Gc::set_memory_limit writes the limit")
+            elif kind in ("assign", "refmut", "rawptr"):
+                rep.violation(R, "limit-writer|%s" % b.id, "%s writes Gc.memory_limit" % b.id, "%s:%s" % (b.file, line))
+    # new_child_gc: limit = self.memory_limit (no constant), generation = self.generation.next()
+    cs = [c for c in child.calls() if c.res == new.id]
+    if len(cs) != 1:
+        rep.violation(R, "child-gc-shape", "Gc::new_child_gc no longer creates the child heap with Gc::new", child.where())
+    else:
+        s_lim = flow.sources(child, cs[0].args[1])
+        s_gen = flow.sources(child, cs[0].args[0])
+        lim_ok = ("field", GC, "memory_limit") in s_lim and not any(x[0] in ("const", "op") for x in s_lim)
+        gen_ok = flow.has_call(s_gen, lambda n: n.endswith("Generation::next")) and ("field", GC, "generation") in s_gen
+        if lim_ok and gen_ok:
+            rep.ok(R, "Gc::new_child_gc: Gc::new(self.generation.next(), self.memory_limit)")
+        else:
+            rep.violation(R, "child-limit-not-inherited", "Gc::new_child_gc creates the child heap with %s: a limited thread's descendants escape its memory limit"
+                          % ("a limit that is not exactly the parent's memory_limit" if not lim_ok else "a generation that is not parent.generation.next()"), cs[0].where())
+    # every thread context gets a heap made by new_child_gc
+    n = 0
+    for b in fb.bodies.values():
+        for c in b.calls():
+            if c.res == "gluon_vm::thread::Context::new":
+                n += 1
+                if flow.has_call(flow.sources(b, c.args[0]), lambda x: x.endswith("Gc::new_child_gc")):
+                    rep.ok(R, "%s: Context::new(<parent gc>.new_child_gc())" % b.id)
+                else:
+                    rep.violation(R, "thread-heap-not-child|%s" % b.id, "%s creates a thread context whose heap does not come from the parent's new_child_gc" % b.id, c.where())
+    rep.floor(R, "thread context constructions", n, 2)
+
+
 def run(fb, rep, tier, cfg):
     rep.explanation = (
         "Static analysis of gluon_vm's resolved MIR (rustc_private driver, -Zmir-opt-level=0). Decides structural "
@@ -596,6 +656,8 @@ def run(fb, rep, tier, cfg):
         "(E2e) in the TailCall arm exit_scope and remove_range dominate do_call; (E2d) for each of the 40 fixed-effect instructions "
         "the net value-stack effect of its interpreter arm, summed along every path to the next fetch, equals (or is below) the "
         "linear expression Instruction::adjust returns, six data-dependent instructions being listed with their reason. It does not "
+        "(E2g) every thread context's heap comes from its parent's new_child_gc, which passes the parent's memory_limit and generation.next() to "
+        "Gc::new; writers of Gc.memory_limit are Gc::new and set_memory_limit. It does not "
         "decide that the compiler's running stack_size models every emitted sequence, nor promptness in wall-clock terms.")
     rep.assumptions += [
         "rustc nightly MIR construction and callee resolution are trusted",
@@ -608,5 +670,6 @@ def run(fb, rep, tier, cfg):
     e2c(fb, rep)
     e2e(fb, rep)
     e2f(fb, rep)
+    e2g(fb, rep)
     from . import e2d
     e2d.run(fb, rep)
